@@ -11,6 +11,8 @@ def run(m, tier):
     results.append(reader_rules.rule_continuation(m, "C15.R5", omp=True))
     results.append(reader_rules.rule_nested_reader_option(m, "C15.R6", "include_omp_conditional_lines",
                                                           "conditional lines inside an included file are otherwise treated as comments although handling is enabled"))
+    from rules import reader_interp
+    results.append(reader_interp.omp_rule(m, "C15.R7", tier))
     expl = ("Decides structural clauses of C15: the three sentinel regex literals built in set_format (folded statically) accept "
             "exactly the sentinel forms of the property ('!$', 'c$', 'C$', '*$' in columns 1-2 plus a valid label/continuation field in "
             "fixed form; '!$ ' after optional blanks in free form) and reject '!$omp'-style directives; group 1 is the 2-character "
